@@ -1,6 +1,18 @@
 // plain-rustc kernel model whose serde_json::Value is an enum with the real variant names (for code that matches on JSON values)
 pub mod serde_json { #[derive(Clone, Debug, PartialEq)] pub enum Value { Null, Bool(bool), Number(i64), String(String), Array(Vec<Value>), Object(std::collections::BTreeMap<String, Value>) } }
 pub use serde_json::Value;
+// the read-only accessors of serde_json::Value that code under replay uses (same names and meanings)
+impl Value {
+    pub fn get(&self, key: &str) -> Option<&Value> { match self { Value::Object(m) => m.get(key), _ => None } }
+    pub fn as_str(&self) -> Option<&str> { match self { Value::String(s) => Some(s.as_str()), _ => None } }
+    pub fn as_u64(&self) -> Option<u64> { match self { Value::Number(n) if *n >= 0 => Some(*n as u64), _ => None } }
+    pub fn as_i64(&self) -> Option<i64> { match self { Value::Number(n) => Some(*n), _ => None } }
+    pub fn as_bool(&self) -> Option<bool> { match self { Value::Bool(b) => Some(*b), _ => None } }
+    pub fn as_array(&self) -> Option<&Vec<Value>> { match self { Value::Array(a) => Some(a), _ => None } }
+    pub fn as_object(&self) -> Option<&std::collections::BTreeMap<String, Value>> { match self { Value::Object(m) => Some(m), _ => None } }
+    pub fn is_null(&self) -> bool { matches!(self, Value::Null) }
+}
+impl std::fmt::Display for Value { fn fmt(&self, f: &mut std::fmt::Formatter<'_>) -> std::fmt::Result { write!(f, "{:?}", self) } }
 //@@ item crates/rip-kernel/src/lib.rs enum ProviderEventStatus
 //@@ item crates/rip-kernel/src/lib.rs enum ToolTaskExecutionMode
 //@@ item crates/rip-kernel/src/lib.rs enum ToolTaskStatus
